@@ -973,18 +973,21 @@ func (a *Authenticator) validateTokenAndDeriveKeys(authData *TokenAuthData, nego
 		return fmt.Errorf("token validation failed: %w", err)
 	}
 
-	// Extract subject from claims
+	// Extract subject from claims. The identity comes from the signed token only: the
+	// ID the client sent alongside it is not a fallback.
+	subject := ""
 	if sub, ok := claims["sub"]; ok {
 		if subStr, ok := sub.(string); ok {
-			authData.ClientID = subStr
+			subject = subStr
 		} else {
 			return fmt.Errorf("JWT subject claim is not a string")
 		}
 	}
 
-	if authData.ClientID == "" {
+	if subject == "" {
 		return fmt.Errorf("JWT token missing required subject (sub) claim")
 	}
+	authData.ClientID = subject
 
 	// For AKEP2 protocol, we need to derive the signature from the signing key and token
 	// This simulates HTCondor's token signature computation
